@@ -94,6 +94,7 @@ Clauses(in, out) ==
       << <<"DataObjectBuilt", out.res = "ok">>,
          <<"DayWithHalfOrFewerReadingsIsMissing", (out.res = "ok" /\ ~MoreThanHalf(in)) => ~out.has>>,
          <<"DailyTemperatureIsTheMeanOfTheReadingsPresent", (out.res = "ok" /\ MoreThanHalf(in)) => (out.has /\ out.ok /\ Eq(<<out.n, out.d>>, ExpTemp(in)))>>,
-         <<"CoverageCountsExact", out.res = "ok" => (out.notnull = Present(in) /\ out.null = Cardinality(Set(in.missing)))>> >>
+         \* (nometer: a reporting period for which only the weather feed was handed over; the counts are not read there)
+         <<"CoverageCountsExact", (out.res = "ok" /\ ~("nometer" \in DOMAIN in)) => (out.notnull = Present(in) /\ out.null = Cardinality(Set(in.missing)))>> >>
 Failing(in, out) == LET c == Clauses(in, out) IN {c[k][1] : k \in {k \in 1..Len(c) : ~c[k][2]}}
 =============================================================================
